@@ -93,6 +93,8 @@ func runCase(c string) string {
 	switch f[0] {
 	case "http":
 		return runHTTP(f)
+	case "phout":
+		return runPhout(f)
 	case "hscen":
 		return runHScen(f)
 	case "gshoot":
